@@ -28,3 +28,17 @@ _add(PropertySpec(
     level="proof", standins=["dynamic_programming:Table-proxies"],
     technique="contract-based deductive verification: sidecar contracts + loop invariants on the real AST, VCs discharged by z3/cvc5",
 ))
+
+RMQ = "superrec2.utils.range_min_query"
+TR = "superrec2.utils.trees"
+_add(PropertySpec(
+    "C17", files=["subsequences", "range_min_query", "trees"],
+    targets=[f"{RMQ}:_ilog2", f"{RMQ}:RangeMinQuery.__init__", f"{RMQ}:RangeMinQuery.__call__",
+             "lemma_rmin_split", "lemma_rmin_overlap", "lemma_pow2_mono", "lemma_bl_mono",
+             f"{TR}:LowestCommonAncestor.is_ancestor_of", f"{TR}:LowestCommonAncestor.is_strict_ancestor_of",
+             f"{TR}:LowestCommonAncestor.is_comparable", f"{TR}:LowestCommonAncestor.distance",
+             f"{TR}:LowestCommonAncestor.__call__", f"{TR}:LowestCommonAncestor.level"],
+    level="proof",
+    technique="contract-based deductive verification (sparse table and derived ancestry queries proved; Euler-tour core assumed + bounded validation)",
+    not_decided=["Euler tour + range minimum => lowest common ancestor / depth (LowestCommonAncestor.__init__, __call__, level, _euler_tour): assumed contracts, validated only by the bounded stand-in"],
+))
